@@ -49,6 +49,9 @@ pub enum Gap {
     Immediately,
     /// next request this many ms after this request's send instant (not before its completion)
     Ms(u64),
+    /// like `Ms(total)`, with a `send_request` into an 8-byte buffer (refused, no request comes into being) `at` ms after
+    /// this request's send instant: a call that is not a request and must not count as one for the staleness rule
+    FailedSend { at: u64, total: u64 },
 }
 
 /// Double-precision RFC 6298 (alpha 1/8, beta 1/4, K 4, RTTVAR before SRTT, max(G, 4*RTTVAR), no rounding)
@@ -198,7 +201,7 @@ pub fn run_chain(cfg: &Cfg, apps: &Arc<Vec<Vec<L>>>, chain: &[(Delay, Gap)], rep
             if bad {
                 break;
             }
-            if let Gap::Ms(ms) = gap {
+            if let Gap::Ms(ms) | Gap::FailedSend { total: ms, .. } = gap {
                 let t = t0 + 2 * MS + ms * MS;
                 if t > run.w.now {
                     explore::step(&mut run, &Event::AdvanceTo(t), None);
@@ -273,6 +276,25 @@ pub fn run_chain(cfg: &Cfg, apps: &Arc<Vec<Vec<L>>>, chain: &[(Delay, Gap)], rep
         }
         match gap {
             Gap::Immediately => {}
+            Gap::FailedSend { at, total } => {
+                let ta = t0 + at * MS;
+                if ta > run.w.now {
+                    explore::step(&mut run, &Event::AdvanceTo(ta), None);
+                    steps += 1;
+                }
+                let o = explore::step(&mut run, &Event::SendTiny { app: 0, cap: 8 }, None);
+                steps += 1;
+                if !matches!(o.res, CallRes::SendErr(_)) || !o.events.is_empty() {
+                    rep.violate("send-into-an-8-byte-buffer-not-refused-cleanly", format!("{:?} {:?}", o.res, super::world::show_events(&o.events)), replay(&hist));
+                    break;
+                }
+                rep.sym("failed-send-inside-a-pause");
+                let t = t0 + total * MS;
+                if t > run.w.now {
+                    explore::step(&mut run, &Event::AdvanceTo(t), None);
+                    steps += 1;
+                }
+            }
             Gap::Ms(ms) => {
                 let t = t0 + ms * MS;
                 if t > run.w.now {
@@ -322,7 +344,7 @@ pub fn run(ctx: &RunCtx) -> i32 {
     }
     let full: Vec<(Delay, Gap)> = delays.iter().flat_map(|d| gaps.iter().map(move |g| (*d, *g))).collect();
     let red: Vec<(Delay, Gap)> = red_delays.iter().flat_map(|d| red_gaps.iter().map(move |g| (*d, *g))).collect();
-    let (full_len, red_len) = if thorough { (3, 6) } else { (3, 5) };
+    let (full_len, red_len) = if crate::util::second_pass() { (2, 3) } else if thorough { (3, 6) } else { (3, 5) };
     // chains are enumerated lazily from their index (digits in base |menu|)
     fn chain_of(mut ix: u64, alpha: usize, len: usize) -> Vec<usize> {
         let mut v = Vec::with_capacity(len);
@@ -331,6 +353,35 @@ pub fn run(ctx: &RunCtx) -> i32 {
             ix /= alpha as u64;
         }
         v
+    }
+    // failed sends inside pauses: every chain of 3 over 3 behaviours x 6 gaps (three of them with a refused send
+    // 100 / 400 / 650 s into a pause of 500 / 700 / 700 s)
+    let fs_delays = [Delay::Ms(7), Delay::Ms(100), Delay::AfterRetransmissions(1)];
+    let fs_gaps = [
+        Gap::Immediately,
+        Gap::Ms(1_000),
+        Gap::Ms(600_001),
+        Gap::FailedSend { at: 400_000, total: 700_000 },
+        Gap::FailedSend { at: 100_000, total: 500_000 },
+        Gap::FailedSend { at: 650_000, total: 700_000 },
+    ];
+    let fs: Vec<(Delay, Gap)> = fs_delays.iter().flat_map(|d| fs_gaps.iter().map(move |g| (*d, *g))).collect();
+    {
+        let n = (fs.len() as u64).pow(3);
+        (0..cfgs.len() as u64 * n).into_par_iter().for_each(|job| {
+            let mut r = Report::new();
+            let ci = (job / n) as usize;
+            let mut k = job % n;
+            let mut chain = vec![];
+            for _ in 0..3 {
+                chain.push(fs[(k % fs.len() as u64) as usize]);
+                k /= fs.len() as u64;
+            }
+            let res = run_chain(&cfgs[ci], &apps, &chain, 0, &mut r);
+            r.transitions += res.steps;
+            r.states += res.steps;
+            shared.merge(r);
+        });
     }
     let pd = [Delay::Ms(1), Delay::Ms(7), Delay::Ms(100), Delay::JustBeforeRto, Delay::AfterRetransmissions(1), Delay::AfterRetransmissions(2)];
     // (configuration, family, index): family 0 = full menu, 1 = reduced menu, 2..=4 = periodic with period 1..=3
@@ -386,9 +437,9 @@ pub fn run(ctx: &RunCtx) -> i32 {
         rep,
         Finish {
             level: "model_checking",
-            rule: format!("for RTO {{100, 500, 3000}} ms x granularity {{1, 10, 1000}} ms without credentials, and RTO 500 ms with short-term credentials (answers carry a valid MESSAGE-INTEGRITY) and long-term credentials (every answer is a 401 challenge with a fresh nonce, i.e. a Retry outcome): every chain of {} transactions over 11 response behaviours (1 / 7 / 100 ms, 1 ms before the first retransmission, after one / two retransmissions, never answered, an error response, an early timer call followed by the answer, two overlapping requests answered in either order) x 6 gaps (immediately, 1 s, 599.999 s, 600 s, 600.001 s, 1200 s between consecutive request instants), every chain of {} transactions over a reduced 4 x 3 menu, and every periodic chain of period <= 3 over 6 response behaviours repeated to 300 transactions ({} chains in total), executed on the real client. After every send the interval recorded for the transaction (H1), the estimator value (H1) and the announced duration are compared with a double-precision RFC 6298 reference (first sample SRTT=R, RTTVAR=R/2; later RTTVAR before SRTT; RTO=SRTT+max(G,4*RTTVAR); sample iff completed without retransmission; reset iff more than 600 s since the previous request) within 1e-5 relative + 1 microsecond", full_len, red_len, n_jobs),
+            rule: format!("for RTO {{100, 500, 3000}} ms x granularity {{1, 10, 1000}} ms without credentials, and RTO 500 ms with short-term credentials (answers carry a valid MESSAGE-INTEGRITY) and long-term credentials (every answer is a 401 challenge with a fresh nonce, i.e. a Retry outcome): every chain of {} transactions over 11 response behaviours (1 / 7 / 100 ms, 1 ms before the first retransmission, after one / two retransmissions, never answered, an error response, an early timer call followed by the answer, two overlapping requests answered in either order) x 6 gaps (immediately, 1 s, 599.999 s, 600 s, 600.001 s, 1200 s between consecutive request instants), every chain of {} transactions over a reduced 4 x 3 menu, every chain of 3 transactions over 3 behaviours x 6 gaps of which three contain a send_request refused for lack of buffer space in the middle of the pause (it is not a request and must not refresh the staleness clock), and every periodic chain of period <= 3 over 6 response behaviours repeated to 300 transactions ({} chains in total), executed on the real client. After every send the interval recorded for the transaction (H1), the estimator value (H1) and the announced duration are compared with a double-precision RFC 6298 reference (first sample SRTT=R, RTTVAR=R/2; later RTTVAR before SRTT; RTO=SRTT+max(G,4*RTTVAR); sample iff completed without retransmission; reset iff more than 600 s since the previous request) within 1e-5 relative + 1 microsecond", full_len, red_len, n_jobs),
             assumptions: vec!["zero-length response times are excluded as the statement says".into(), "verdicts are taken after every send, so chains of the maximal length cover all shorter ones".into()],
-            required_symbols: vec!["sampled", "not-sampled-after-retransmission", "not-sampled-timed-out", "gap-beyond-600s", "gap-exactly-600s", "periodic-300", "sampled-overlapping", "error-response-sampled", "early-timer-then-answer"],
+            required_symbols: vec!["sampled", "not-sampled-after-retransmission", "not-sampled-timed-out", "gap-beyond-600s", "gap-exactly-600s", "periodic-300", "sampled-overlapping", "error-response-sampled", "early-timer-then-answer", "failed-send-inside-a-pause"],
             min_outcomes: 2,
             exhaustive: true,
             bounds: json!({"full_menu_len": full_len, "reduced_menu_len": red_len, "periodic_to": 300}),
